@@ -236,6 +236,18 @@ func tripCountBound(l *loopInfo) ssa.Value {
 			return a.Y
 		}
 	}
+	// for i := N; i > 0; i-- (or i >= 1): N iterations
+	if step == -1 && (a.Op == token.GTR || a.Op == token.GEQ) {
+		if k, ok := constInt(a.Y); ok && ((a.Op == token.GTR && k == 0) || (a.Op == token.GEQ && k == 1)) {
+			return init
+		}
+	}
+	// for i := 1; i <= N; i++: N iterations
+	if step == 1 && a.Op == token.LEQ {
+		if k, ok := constInt(init); ok && k == 1 {
+			return a.Y
+		}
+	}
 	if step == -1 && a.Op == token.GEQ {
 		if k, ok := constInt(a.Y); ok && k == 0 {
 			// init = Y - 1 (possibly converted)
